@@ -32,7 +32,8 @@ META = dict(
                "when a newer same-name/overlapping request or Stop cancels it; a tracking refusal no longer skips "
                "finalize); the theorem asis_two_instances_execute_in_one_tick shows the unchanged code violates the "
                "property. Trusted: Lean kernel, the harness, the model's abstractions (UOD exec functions are "
-               "parameters 'completes at iteration n / raises at iteration k'; whether the argument parser accepts a "
+               "parameters 'completes at iteration n / raises at iteration k / calls set_complete() and then raises "
+               "at iteration k'; whether the argument parser accepts a "
                "request's arguments is a flag of the request; UOD requests are interpreter-sourced; one lifecycle "
                "command in flight). The interpreter's scheduling and UOD commands from the user's command buttons are "
                "covered by the engine-level oracle, not by the theorems: a user command between the two phases of "
